@@ -73,37 +73,33 @@ theorem all_congr' {α} {p q : α → Bool} {l : List α} (h : ∀ x ∈ l, p x 
   | cons x xs ih =>
     rw [List.all_cons, List.all_cons, h x (by simp), ih (fun y hy => h y (by simp [hy]))]
 
-/-- the library's `signed` flag is exact on `TRIVIAL`-free well-formed policies -/
-theorem safe_exact : ∀ c, WFC c = true → trivialFree c = true →
-    (isSafeNonmalleable c).1 = !holdsC noKeys c := by
+/-- the library's `signed` flag is exact on well-formed policies -/
+theorem safe_exact : ∀ c, WFC c = true → (isSafeNonmalleable c).1 = !holdsC noKeys c := by
   intro c
   induction c using CPolicy.induct' with
-  | unsat => intro _ _; rfl
-  | trivial => intro _ h; simp [trivialFree] at h
-  | atom a => intro _ _; cases a <;> rfl
+  | unsat => intro _; rfl
+  | trivial => intro _; rfl
+  | atom a => intro _; cases a <;> rfl
   | and subs ih =>
-    intro hw ht
+    intro hw
     simp only [WFC, WFC_go_iff] at hw
-    simp only [trivialFree, trivialFree_go_iff] at ht
     simp only [isSafeNonmalleable, isSafeNonmalleableList_eq, List.any_map, holdsC, countC_eq]
     rw [cnt_all, ← any_not_eq]
-    exact any_congr' (fun c hc => by simp [ih c hc (hw c hc) (ht c hc)])
+    exact any_congr' (fun c hc => by simp [ih c hc (hw c hc)])
   | or subs ih =>
-    intro hw ht
+    intro hw
     simp only [WFC, Bool.and_eq_true, decide_eq_true_eq, WFC_go_iff] at hw
-    simp only [trivialFree, trivialFree_go_iff] at ht
     simp only [isSafeNonmalleable, isSafeNonmalleableList_eq, List.all_map, holdsC, countC_eq]
     rw [cnt_any, ← all_not_eq]
-    exact all_congr' (fun c hc => by simp [ih c hc (hw.2 c hc) (ht c hc)])
+    exact all_congr' (fun c hc => by simp [ih c hc (hw.2 c hc)])
   | thresh k subs ih =>
-    intro hw ht
+    intro hw
     simp only [WFC, Bool.and_eq_true, decide_eq_true_eq, WFC_go_iff] at hw
-    simp only [trivialFree, trivialFree_go_iff] at ht
     simp only [isSafeNonmalleable, isSafeNonmalleableList_eq, safeNonmallThresh, List.countP_map,
       holdsC, countC_eq]
     have hc : subs.countP ((fun x => x.1) ∘ isSafeNonmalleable)
         = subs.countP (fun c => !holdsC noKeys c) :=
-      List.countP_congr (fun c hc => by simp [ih c hc (hw.2 c hc) (ht c hc)])
+      List.countP_congr (fun c hc => by simp [ih c hc (hw.2 c hc)])
     rw [hc, countP_not]
     have := List.countP_le_length (p := holdsC noKeys) (l := subs)
     obtain ⟨⟨hk1, hkn⟩, _⟩ := hw
@@ -112,11 +108,6 @@ theorem safe_exact : ∀ c, WFC c = true → trivialFree c = true →
       simp [h, this]
     · have : subs.length - subs.countP (holdsC noKeys) ≥ subs.length - k + 1 := by omega
       simp [h, this]
-
-/-- with `TRIVIAL` the flag is wrong: `or(pk(0), TRIVIAL)` is reported "signed" -/
-theorem safe_trivial_witness :
-    (isSafeNonmalleable (.or [.atom (.key 0), .trivial])).1 = true
-    ∧ holdsC noKeys (.or [.atom (.key 0), .trivial]) = true := by decide
 
 /-! ## n_keys -/
 
